@@ -95,7 +95,8 @@ def _split(n, count, ending="close", target="out.records", suffix_length=None, s
             w.__exit__(None, None, None)
         else:
             w.close()
-        parts = sorted(glob.glob(os.path.join(td, "*")))
+        # "in order" is the order of the part numbers (beyond 10**suffix-length parts the number gets wider, the names no longer sort as text)
+        parts = sorted(glob.glob(os.path.join(td, "*")), key=lambda p_: (int(([c for c in os.path.basename(p_).split(".") if c.isdigit()] or ["0"])[-1]), p_))
         allr = []
         for p in parts:
             try:
